@@ -1,17 +1,25 @@
-// ctl_adapt.cpp — controlled-schedule (engine `adapt`) and sequential (engine `adseq`) scenarios for the
-// callback adapters (C18): callback_await / callback_await_alloc, make_promise, discard, future_conv,
-// call_fn_future_awaiter.  One scenario = one adapter registered by thread 0 on a future<counted> whose
-// promise is resolved (value / exception / dropped) before, during or after the registration.
+// ctl_adapt.cpp — controlled-schedule and sequential scenarios for the callback adapters (C18):
+// callback_await / callback_await_alloc, make_promise, discard, future_conv (all specialisations),
+// call_fn_future_awaiter.  One scenario = one adapter registered by thread 0 on a source future whose promise is
+// resolved (value / exception / dropped), possibly against a competing resolver, before, during or after the registration.
+// engine name = "adapt" | "adseq"  (controlled threads | one thread, no controller)
+//               + "c" optional      (all scenario code runs with the thread's coro_queue active, i.e. as if called from a coroutine)
+//               + "v" | "r" optional (source future<void> | the factory returns future<counted&>; default future<counted>)
 //   op [1 adapter mode storage]   adapter 0 callback_await 1 make_promise 2 discard 3 future_conv 4 call_fn_future_awaiter
-//                                 mode 0 ready-made future, 1 resolved inside the future's init function (same thread, before
+//                                 mode 0 ready-made future, 1 resolved inside the future's init function (same thread, before the
 //                                 registration), 2 promise parked, resolved by thread 1 (concurrent), 3 promise parked, resolved by
-//                                 thread 0 after the registration;  storage 0 heap, 1 counting storage (adapters 0 and 1 only)
+//                                 thread 0 after the registration
+//                                 storage (adapters 0,1): 0 heap, 1 counting storage (static block), 2 cocls::reusable_storage,
+//                                 3 the second of two trailer-tagged counting storages, 4 cocls::reusable_storage_mtsafe
 //   op [2 kind datum]             0 value datum, 1 exception test_exc{datum}, 2 promise dropped
-//   op [3 ckind cdatum]           converter (future_conv): 0 returns src+cdatum, 1 throws test_exc{cdatum}
+//   op [3 ckind cdatum (spec)]    converter: 0 returns src+cdatum, 1 throws test_exc{cdatum}; spec 0 member fn, 1 free fn,
+//                                 2 free fn with context, 3 member fn taking the promise; with spec 3 also ckind 2 resolves the
+//                                 promise with the exception, 3 declines (touches nothing), 4 moves the promise to a holder
+//                                 from which thread 2 resolves it later
 //   op [4 b]                      b=1: the user callback of callback_await throws after it has done its work
+//   op [5 kind datum]             competing resolver on thread 2 (mode 2 only): value / exception / p(drop)
 //   op [9 k k k ...]              schedule
 // The harness contains no expected values: it prints the (tid, point) trace, the events and the counters.
-#define VH_DEFINE_NEW
 #include "ctl.h"
 #if defined(__SANITIZE_ADDRESS__)
 #include <sanitizer/asan_interface.h>
@@ -21,12 +29,41 @@
 #define VH_POISON(p, n) ((void)0)
 #define VH_UNPOISON(p, n) ((void)0)
 #endif
+
+// ---- allocation accounting: the shared scenario counters (vh::g_news / g_deletes, gated by vh::t_count) plus an
+// ---- ungated balance over everything, so that a block lost by a case is attributed to that case ----
+static std::atomic<long> g_all_news{0}, g_all_dels{0};
+void *operator new(std::size_t sz) {
+    g_all_news.fetch_add(1, std::memory_order_relaxed);
+    if (vh::t_count) vh::g_news.fetch_add(1, std::memory_order_relaxed);
+    void *p = std::malloc(sz ? sz : 1);
+    if (!p) throw std::bad_alloc();
+    return p;
+}
+void *operator new[](std::size_t sz) {
+    if (vh::t_count) vh::g_news_arr.fetch_add(1, std::memory_order_relaxed);
+    return ::operator new(sz);
+}
+void operator delete(void *p) noexcept {
+    if (!p) return;
+    g_all_dels.fetch_add(1, std::memory_order_relaxed);
+    if (vh::t_count) vh::g_deletes.fetch_add(1, std::memory_order_relaxed);
+    std::free(p);
+}
+void operator delete[](void *p) noexcept {
+    if (p && vh::t_count) vh::g_deletes_arr.fetch_add(1, std::memory_order_relaxed);
+    ::operator delete(p);
+}
+void operator delete(void *p, std::size_t) noexcept { ::operator delete(p); }
+void operator delete[](void *p, std::size_t) noexcept { ::operator delete[](p); }
+
 #define protected public
 #define private public
 #include <cocls/future.h>
 #include <cocls/async.h>
 #include <cocls/callback_awaiter.h>
 #include <cocls/future_conv.h>
+#include <cocls/coro_storage.h>
 #undef protected
 #undef private
 
@@ -46,14 +83,17 @@ struct counted {
 };
 
 // ---- per-case context: event list + counters (only the one running thread touches it) ----
+struct tstorage;
 struct Ctx {
     std::vector<std::vector<long>> events;
     long news0 = 0, dels0 = 0;
-    long sallocs = 0, sdeallocs = 0;
+    long sallocs = 0, sdeallocs = 0;   // of the storage handed to the adapter
     long live_f = 0;
     const void *invoked = nullptr;
     long runs = 0;
     bool cbthrow = false;
+    long mismatch = 0;                 // trailer storage: dealloc with a size / owner that does not match the alloc
+    tstorage *ts_a = nullptr, *ts_b = nullptr;
     long end_news = 0, end_dels = 0;   // counters when the last scenario thread returned (+ counted teardown)
     void thread_end() { end_news = std::max(end_news, news()); end_dels = std::max(end_dels, dels()); }
     long step() const {
@@ -105,12 +145,54 @@ struct cstorage {
     }
 };
 
+// counting storage with instances: the owner is written behind the block (as static_storage / reusable_storage_mtsafe
+// do), so dealloc only finds the right instance if it is given the size that alloc was given
+struct tstorage {
+    alignas(16) char buf[4096];
+    long allocs = 0, deallocs = 0;
+    std::size_t last_sz = 0;
+    bool in_use = false;
+    void *alloc(std::size_t sz) {
+        allocs++;
+        if (this == g_ctx->ts_b) g_ctx->sallocs++;
+        if (in_use || sz + sizeof(tstorage *) > sizeof(buf)) {
+            g_ctx->ev(36, g_ctx->step(), (long)in_use);
+            std::abort();
+        }
+        in_use = true;
+        last_sz = sz;
+        VH_UNPOISON(buf, sizeof(buf));
+        tstorage *self = this;
+        std::memcpy(buf + sz, &self, sizeof(self));   // the trailer
+        return buf;
+    }
+    static void dealloc(void *p, std::size_t sz) {
+        tstorage *me = nullptr;
+        tstorage *a = g_ctx->ts_a, *b = g_ctx->ts_b;
+        tstorage *own = (p == (void *)a->buf) ? a : (p == (void *)b->buf) ? b : nullptr;
+        if (own && sz + sizeof(tstorage *) <= sizeof(own->buf)) std::memcpy(&me, (char *)p + sz, sizeof(me));
+        if (!own || me != own || sz != own->last_sz || !own->in_use) {
+            g_ctx->mismatch++;
+            if (own) me = own; else return;
+        }
+        me->deallocs++;
+        me->in_use = false;
+        if (me == b) g_ctx->sdeallocs++;
+        g_ctx->ev(35, g_ctx->step());
+        VH_POISON(me->buf, sizeof(me->buf));
+    }
+};
+
 template <typename F>
 static void read_future(F &f, long &kind, long &datum) {
     kind = 7;
     datum = 0;
     try {
-        if constexpr (std::is_same_v<typename F::value_type, counted>) datum = f.value().v;
+        using VT = typename F::value_type;
+        if constexpr (std::is_void_v<VT>) {
+            f.value();
+            datum = 0;
+        } else if constexpr (std::is_same_v<std::decay_t<VT>, counted>) datum = f.value().v;
         else datum = f.value();
         kind = 1;
     } catch (const test_exc &e) {
@@ -137,14 +219,15 @@ struct FnBase {
     }
 };
 
-// callback for callback_await
+// callback for callback_await; R = counted or void
+template <typename R>
 struct AwFn : FnBase {
     using FnBase::FnBase;
-    void operator()(await_result<counted> r) {
+    void operator()(await_result<R> r) {
         long kind = 7, datum = 0;
         if (r) {
             kind = 1;
-            datum = (*r).v;
+            if constexpr (!std::is_void_v<R>) datum = (*r).v;
         } else {
             try {
                 r.get();
@@ -164,10 +247,11 @@ struct AwFn : FnBase {
     }
 };
 
-// callback for make_promise
+// callback for make_promise; T = counted, void or counted&
+template <typename T>
 struct MpFn : FnBase {
     using FnBase::FnBase;
-    void operator()(future<counted> &f) {
+    void operator()(future<T> &f) {
         long kind, datum;
         read_future(f, kind, datum);
         c->invoked = this;
@@ -176,9 +260,10 @@ struct MpFn : FnBase {
     }
 };
 
+template <typename H>
 struct CfObj {
     Ctx *c;
-    suspend_point<void> done(future<counted> &f) noexcept {
+    suspend_point<void> done(future<H> &f) noexcept {
         long kind, datum;
         read_future(f, kind, datum);
         c->cb_enter(kind, datum);
@@ -190,21 +275,49 @@ struct CfObj {
 struct ConvCtx {
     Ctx *c;
     long ck, cd;
-    long conv(counted &src) {
-        if (ck) {
-            c->ev(32, c->step(), src.v, 2, cd);
+    std::optional<promise<long>> held;   // behaviour 4: the converter forwards the promise to whoever resolves it later
+    long held_value = 0;
+    long work(long src) {
+        if (ck == 1) {
+            c->ev(32, c->step(), src, 2, cd);
             throw test_exc{cd};
         }
-        c->ev(32, c->step(), src.v, 1, src.v + cd);
-        return src.v + cd;
+        c->ev(32, c->step(), src, 1, src + cd);
+        return src + cd;
     }
+    // the promise-passing form decides itself what happens to the promise
+    suspend_point<void> workp(long src, promise<long> &p) {
+        switch (ck) {
+            case 2:
+                c->ev(32, c->step(), src, 2, cd);
+                return p(std::make_exception_ptr(test_exc{cd}));
+            case 3:
+                c->ev(32, c->step(), src, 0, 0);   // declines: the promise is left alone
+                return {};
+            case 4:
+                c->ev(32, c->step(), src, 1, src + cd);
+                held_value = src + cd;
+                held.emplace(std::move(p));
+                return {};
+            default:
+                return p(work(src));
+        }
+    }
+    long conv(counted &src) { return work(src.v); }
+    long conv0() { return work(0); }
+    suspend_point<void> convp(counted &src, promise<long> &p) { return workp(src.v, p); }
+    suspend_point<void> convp0(promise<long> &p) { return workp(0, p); }
 };
+static ConvCtx *g_conv = nullptr;
+static long conv_free(counted &src) { return g_conv->work(src.v); }
+static long conv_free_ctx(counted &src, ConvCtx *x) { return x->work(src.v); }
 
-struct Hold {
-    promise<counted> p;
-    Hold(promise<counted> &&q) : p(std::move(q)) {}
+template <typename FT>
+struct HoldT {
+    promise<FT> p;
+    HoldT(promise<FT> &&q) : p(std::move(q)) {}
     template <typename F>
-    Hold(F &&f, int) : p(f()) {}
+    HoldT(F &&f, int) : p(f()) {}
 };
 struct OuterHold {
     future<long> f;
@@ -213,20 +326,26 @@ struct OuterHold {
 };
 
 struct Cfg {
-    long ad = -1, mode = -1, stor = -1, k = -1, d = 0, ck = 0, cd = 0, cbthrow = 0;
+    long ad = -1, mode = -1, stor = -1, k = -1, d = 0, ck = 0, cd = 0, spec = 0, cbthrow = 0, k2 = -1, d2 = 0;
+    bool isvoid = false;
     std::vector<long> sched;
     bool valid() const {
-        if (ad < 0 || ad > 4 || mode < 0 || mode > 3 || stor < 0 || stor > 1) return false;
-        if (stor == 1 && ad > 1) return false;
-        if (k < 0 || k > 2 || ck < 0 || ck > 1 || cbthrow < 0 || cbthrow > 1) return false;
+        if (ad < 0 || ad > 4 || mode < 0 || mode > 3 || stor < 0 || stor > 4) return false;
+        if (stor != 0 && ad > 1) return false;
+        if (k < 0 || k > 2 || ck < 0 || ck > 4 || cbthrow < 0 || cbthrow > 1) return false;
+        if (ck >= 2 && spec != 3) return false;
+        if (ck == 4 && k2 >= 0) return false;
+        if (spec < 0 || spec > 3 || (isvoid && (spec == 1 || spec == 2))) return false;
         if (ad == 1 && mode < 2) return false;
+        if (k2 < -1 || k2 > 2 || (k2 >= 0 && mode != 2)) return false;
         return true;
     }
 };
 
-static Cfg parse(const vh::Case &cs) {
+static Cfg parse(const vh::Case &cs, bool isvoid) {
     Cfg g;
-    bool h1 = false, h2 = false, h3 = false, h4 = false;
+    g.isvoid = isvoid;
+    bool h1 = false, h2 = false, h3 = false, h4 = false, h5 = false;
     for (auto &op : cs.ops) {
         if (op.empty()) continue;
         if (op[0] == 1 && !h1) {
@@ -237,13 +356,22 @@ static Cfg parse(const vh::Case &cs) {
             if (op.size() == 3) { g.k = op[1]; g.d = op[2]; }
         } else if (op[0] == 3 && !h3) {
             h3 = true;
-            if (op.size() == 3) { g.ck = op[1]; g.cd = op[2]; } else g.ck = -1;
+            if (op.size() == 3) { g.ck = (op[1] == 0 || op[1] == 1) ? op[1] : -1; g.cd = op[2]; }
+            else if (op.size() == 4) { g.ck = op[1]; g.cd = op[2]; g.spec = op[3]; }
+            else g.ck = -1;
         } else if (op[0] == 4 && !h4) {
             h4 = true;
             if (op.size() == 2) g.cbthrow = op[1]; else g.cbthrow = -1;
+        } else if (op[0] == 5 && !h5) {
+            h5 = true;
+            if (op.size() == 3 && op[1] >= 0 && op[1] <= 2) { g.k2 = op[1]; g.d2 = op[2]; } else g.k2 = -2;
         } else if (op[0] == 9) {
             g.sched.insert(g.sched.end(), op.begin() + 1, op.end());
         }
+    }
+    if (isvoid) {   // a void value carries no datum
+        if (g.k == 0) g.d = 0;
+        if (g.k2 == 0) g.d2 = 0;
     }
     return g;
 }
@@ -255,13 +383,23 @@ static void warmup() {
     vh::t_count = saved;
 }
 
-static void run_case(const vh::Case &cs, bool seq) {
+// value-type variants: FT = value type of the future the factory returns, HT = value type of the future the adapter holds
+struct TrCnt { using FT = counted; using HT = counted; using RT = counted; static constexpr bool isvoid = false, isref = false; };
+struct TrVoid { using FT = void; using HT = void; using RT = void; static constexpr bool isvoid = true, isref = false; };
+struct TrRef { using FT = counted &; using HT = counted; using RT = counted; static constexpr bool isvoid = false, isref = true; };
+
+template <typename Tr>
+static bool run_case(const vh::Case &cs, bool seq, bool coro) {
+    using FT = typename Tr::FT;
+    using HT = typename Tr::HT;
+    using RT = typename Tr::RT;
+    using Hold = HoldT<FT>;
     vh::t_count = false;
-    Cfg g = parse(cs);
+    Cfg g = parse(cs, Tr::isvoid);
     if (!g.valid()) {
         vh::print_obs({-1});
         vh::t_count = true;
-        return;
+        return false;
     }
     long live0 = counted::live.load();
     Ctx ctx;
@@ -271,36 +409,66 @@ static void run_case(const vh::Case &cs, bool seq) {
     ctx.dels0 = vh::g_deletes.load();
     cstorage::in_use = false;
     long outer_ready = 0, outer_kind = 0, outer_datum = 0;
+    long ret1 = -1, ret2 = -1, busy_end = 0;
+    long ta = 0, tad = 0, tb = 0, tbd = 0;
     {
+        counted cell1(g.d), cell2(g.d2);   // referents for the reference variant
         std::optional<Hold> hold;
-        cstorage stor;
-        ConvCtx cctx{&ctx, g.ck, g.cd};
-        CfObj cfobj{&ctx};
-        std::optional<future_conv<&ConvCtx::conv>> fc;
-        std::optional<OuterHold> outer;
+        cstorage stor1;
+        std::optional<reusable_storage> stor2;
+        std::optional<tstorage> stor3a, stor3b;
+        std::optional<reusable_storage_mtsafe> stor4;
+        if (g.stor == 2) stor2.emplace();
+        if (g.stor == 3) { stor3a.emplace(); stor3b.emplace(); ctx.ts_a = &*stor3a; ctx.ts_b = &*stor3b; }
+        if (g.stor == 4) stor4.emplace();
+        ConvCtx cctx{&ctx, g.ck, g.cd, {}, 0};
+        g_conv = &cctx;
+        CfObj<HT> cfobj{&ctx};
+        using Fc0 = std::conditional_t<Tr::isvoid, future_conv<&ConvCtx::conv0>, future_conv<&ConvCtx::conv>>;
+        using Fc3 = std::conditional_t<Tr::isvoid, future_conv<&ConvCtx::convp0>, future_conv<&ConvCtx::convp>>;
+        std::optional<Fc0> fc0;
+        std::optional<future_conv<&conv_free>> fc1;
+        std::optional<future_conv<&conv_free_ctx>> fc2;
+        std::optional<Fc3> fc3;
+        // the outer future lives in zeroed raw storage so that its readiness can be observed while it is still being constructed
+        alignas(OuterHold) static char obuf[sizeof(OuterHold)];
+        std::memset(obuf, 0, sizeof(obuf));
+        OuterHold *outer = nullptr;
+        auto outer_ready_now = [&] { return reinterpret_cast<OuterHold *>(obuf)->f._awaiter.load() == &awaiter::disabled; };
         std::optional<co_awaiter<future<long>>> outer_aw;
-        std::optional<call_fn_future_awaiter<&CfObj::done>> cfa;
+        std::optional<call_fn_future_awaiter<&CfObj<HT>::done>> cfa;
 
-        auto mk = [&]() -> future<counted> {
+        auto set_on = [&](promise<FT> &p, long k, long d, counted &cell) -> long {
+            if (k == 0) {
+                if constexpr (Tr::isvoid) return (bool)p();
+                else if constexpr (Tr::isref) return (bool)p(cell);
+                else return (bool)p(d);
+            }
+            if (k == 1) return (bool)p(std::make_exception_ptr(test_exc{d}));
+            return (bool)p(drop);
+        };
+        auto mk = [&]() -> future<FT> {
             switch (g.mode) {
                 case 0:
-                    if (g.k == 0) return future<counted>::set_value(g.d);
-                    if (g.k == 1) return future<counted>::set_exception(std::make_exception_ptr(test_exc{g.d}));
-                    return future<counted>::set_not_value();
+                    if (g.k == 0) {
+                        if constexpr (Tr::isvoid) return future<FT>::set_value();
+                        else if constexpr (Tr::isref) return future<FT>::set_value(cell1);
+                        else return future<FT>::set_value(g.d);
+                    }
+                    if (g.k == 1) return future<FT>::set_exception(std::make_exception_ptr(test_exc{g.d}));
+                    return future<FT>::set_not_value();
                 case 1:
-                    return future<counted>([&](promise<counted> p) {
-                        if (g.k == 0) p(g.d);
-                        else if (g.k == 1) p(std::make_exception_ptr(test_exc{g.d}));
+                    return future<FT>([&](promise<FT> p) {
+                        if (g.k != 2) set_on(p, g.k, g.d, cell1);
                         // k == 2: the promise is dropped when p goes out of scope
                     });
                 default:
-                    return future<counted>([&](promise<counted> p) { hold.emplace(std::move(p)); });
+                    return future<FT>([&](promise<FT> p) { hold.emplace(std::move(p)); });
             }
         };
         auto resolve = [&] {
-            if (g.k == 0) hold->p(g.d);
-            else if (g.k == 1) hold->p(std::make_exception_ptr(test_exc{g.d}));
-            else hold.reset();
+            if (g.k == 2 && g.k2 < 0) hold.reset();          // lone drop: ~promise
+            else ret1 = set_on(hold->p, g.k, g.d, cell1);    // with a competitor the drop is p(drop): the object must stay alive
         };
         struct OuterCb {
             static suspend_point<void> fn(awaiter *, void *u) noexcept {
@@ -312,54 +480,99 @@ static void run_case(const vh::Case &cs, bool seq) {
             }
         };
         std::pair<Ctx *, future<long> *> ocb_arg{&ctx, nullptr};
+        auto reg_conv = [&](auto &fc) {
+            outer = new (obuf) OuterHold([&] { return fc << mk; });
+            ocb_arg.second = &outer->f;
+            outer_aw.emplace(outer->f);
+            if (outer_aw->await_ready() || !outer_aw->await_suspend(&OuterCb::fn, &ocb_arg)) OuterCb::fn(nullptr, &ocb_arg);
+        };
+        auto with_storage = [&](auto &&f) {
+            switch (g.stor) {
+                case 1: f(stor1); break;
+                case 2: f(*stor2); break;
+                case 3: f(*stor3b); break;
+                case 4: f(*stor4); break;
+            }
+        };
+        auto in_mode = [&](auto &&f) {
+            if (coro) coro_queue::install_queue_and_call(f);   // as if called from a running coroutine
+            else f();
+        };
 
-        auto t0 = [&] {
-            warmup();
+        auto reg = [&] {
             switch (g.ad) {
                 case 0:
-                    if (g.stor == 0) callback_await<future<counted>>(AwFn(&ctx), mk);
-                    else callback_await_alloc<cstorage, future<counted>>(stor, AwFn(&ctx), mk);
+                    if (g.stor == 0) callback_await<future<FT>>(AwFn<RT>(&ctx), mk);
+                    else with_storage([&](auto &st) {
+                        callback_await_alloc<std::remove_reference_t<decltype(st)>, future<FT>>(st, AwFn<RT>(&ctx), mk);
+                    });
                     break;
                 case 1:
-                    if (g.stor == 0) hold.emplace([&] { return make_promise<counted>(MpFn(&ctx)); }, 0);
-                    else hold.emplace([&] { return make_promise<counted>(MpFn(&ctx), stor); }, 0);
+                    if (g.stor == 0) hold.emplace([&] { return make_promise<FT>(MpFn<FT>(&ctx)); }, 0);
+                    else with_storage([&](auto &st) { hold.emplace([&] { return make_promise<FT>(MpFn<FT>(&ctx), st); }, 0); });
                     break;
                 case 2:
                     discard(mk);
                     break;
-                case 3: {
-                    fc.emplace(&cctx);
-                    outer.emplace([&] { return *fc << mk; });
-                    ocb_arg.second = &outer->f;
-                    outer_aw.emplace(outer->f);
-                    if (outer_aw->await_ready() || !outer_aw->await_suspend(&OuterCb::fn, &ocb_arg))
-                        OuterCb::fn(nullptr, &ocb_arg);
+                case 3:
+                    if (g.spec == 0) { fc0.emplace(&cctx); reg_conv(*fc0); }
+                    else if (g.spec == 3) { fc3.emplace(&cctx); reg_conv(*fc3); }
+                    else if constexpr (!Tr::isvoid) {
+                        if (g.spec == 1) { fc1.emplace(); reg_conv(*fc1); }
+                        else { fc2.emplace(&cctx); reg_conv(*fc2); }
+                    }
                     break;
-                }
                 case 4:
                     cfa.emplace(cfobj);
                     *cfa << mk;
                     break;
             }
-            if (g.mode == 3) resolve();
+        };
+        auto t0 = [&] {
+            warmup();
+            in_mode(reg);
+            if (g.mode == 3) in_mode(resolve);
             ctx.thread_end();
         };
         auto t1 = [&] {
             warmup();
             ctl::block_until("xwait", [&] { return hold.has_value(); });
-            resolve();
+            in_mode(resolve);
+            ctx.thread_end();
+        };
+        auto t2 = [&] {
+            warmup();
+            ctl::block_until("xwait", [&] { return hold.has_value(); });
+            in_mode([&] { ret2 = set_on(hold->p, g.k2, g.d2, cell2); });
+            ctx.thread_end();
+        };
+        bool repark = g.ad == 3 && g.ck == 4;
+        auto t2late = [&] {   // resolves the promise the converter forwarded (if it did)
+            warmup();
+            ctl::block_until("xwait", [&] { return cctx.held.has_value() || outer_ready_now(); });
+            in_mode([&] { if (cctx.held) (*cctx.held)(cctx.held_value); });
             ctx.thread_end();
         };
 
         if (seq) {
-            vh::t_count = true;
-            t0();
-            if (g.mode == 2) t1();
-            vh::t_count = false;
+            // one fresh thread per case: its thread-local ready queue starts empty (libstdc++'s deque allocates a new node
+            // every 64 push_backs, which would otherwise show up in some later case's counters)
+            std::thread th([&] {
+                vh::t_count = true;
+                t0();
+                if (g.mode == 2) t1();
+                if (g.k2 >= 0) t2();
+                if (repark) t2late();
+                vh::t_count = false;
+            });
+            th.join();
         } else {
             std::vector<std::function<void()>> fns;
             fns.push_back(t0);
             if (g.mode == 2) fns.push_back(t1);
+            else if (repark) fns.push_back([] {});   // keeps the late resolver at thread id 2
+            if (g.k2 >= 0) fns.push_back(t2);
+            if (repark) fns.push_back(t2late);
             ctl::Controller c;
             c.run(std::move(fns), g.sched);
             vh::t_count = false;
@@ -375,32 +588,58 @@ static void run_case(const vh::Case &cs, bool seq) {
             outer_ready = outer->f.ready();
             if (outer_ready) read_future(outer->f, outer_kind, outer_datum);
         }
+        if (stor4) busy_end = stor4->_busy.load();
         long n1 = vh::g_news.load(), d1 = vh::g_deletes.load();
-        vh::t_count = true;   // anything the adapters still own dies here, counted
+        vh::t_count = true;   // anything the adapters and the storages still own dies here, counted
         outer_aw.reset();
-        outer.reset();
-        fc.reset();
+        if (outer) outer->~OuterHold();
+        cctx.held.reset();
+        fc0.reset();
+        fc1.reset();
+        fc2.reset();
+        fc3.reset();
         cfa.reset();
         hold.reset();
+        stor2.reset();
+        stor4.reset();
         vh::t_count = false;
         ctx.end_news += vh::g_news.load() - n1;
         ctx.end_dels += vh::g_deletes.load() - d1;
+        if (stor3a) { ta = stor3a->allocs; tad = stor3a->deallocs; tb = stor3b->allocs; tbd = stor3b->deallocs; }
+        g_conv = nullptr;
     }
     for (auto &e : ctx.events) vh::print_obs(e);
     vh::print_obs({40, ctx.end_news, ctx.end_dels, ctx.sallocs, ctx.sdeallocs, ctx.live_f, counted::live.load() - live0});
+    vh::print_obs({43, ta, tad, tb, tbd, ctx.mismatch, busy_end});
     vh::print_obs({42, outer_ready, outer_kind, outer_datum});
+    vh::print_obs({44, ret1, ret2});
     vh::print_obs({50, ctx.runs, 0});
     g_ctx = nullptr;
     vh::t_count = true;
+    return true;
 }
 
 int main(int argc, char **argv) {
     if (argc < 2) return 2;
-    for (auto &cs : vh::read_cases(argv[1])) {
+    auto cases = vh::read_cases(argv[1]);
+    warmup();   // the main thread's ready queue (sequential engines) is created before anything is measured
+    for (auto &cs : cases) {
         std::printf("CASE %s\n", cs.name.c_str());
         std::fflush(stdout);
-        if (cs.engine == "adapt") run_case(cs, false);
-        else if (cs.engine == "adseq") run_case(cs, true);
+        std::string e = cs.engine;
+        bool seq = e.rfind("adseq", 0) == 0, ctlm = e.rfind("adapt", 0) == 0;
+        if (seq || ctlm) {
+            std::string sfx = e.substr(5);
+            bool coro = !sfx.empty() && sfx[0] == 'c';
+            if (coro) sfx = sfx.substr(1);
+            long a0 = g_all_news.load() - g_all_dels.load();
+            bool ran = false;
+            if (sfx == "") ran = run_case<TrCnt>(cs, seq, coro);
+            else if (sfx == "v") ran = run_case<TrVoid>(cs, seq, coro);
+            else if (sfx == "r") ran = run_case<TrRef>(cs, seq, coro);
+            // blocks this case allocated and did not give back (anywhere, on any thread)
+            if (ran) vh::print_obs({41, (g_all_news.load() - g_all_dels.load()) - a0});
+        }
         std::printf("END\n");
         std::fflush(stdout);
     }
